@@ -22,7 +22,7 @@ RULE = ("cases: random recipes evaluated on interpretations that fix, sub-range 
         "read on every node of the model. non-trivial: >=1 leaf left open and the top is undecided (non-constant result) "
         "for the interpretation; distinct by (shape digest, open-leaf pattern)"
         ' Also: targeted nodes of every class over leaves whose bounds exclude 0 / are negative / constant, hostile twins.')
-BUDGET = {"quick": (12, 260, 90), "thorough": (16, 2200, 1200)}
+BUDGET = {"quick": (12, 780, 90), "thorough": (16, 2200, 1200)}
 PYTEST = True     # thorough tier also runs the repository's own tests under these monitors
 MANDATORY = ["judged:containment", "judged:tautology-sound", "judged:contradiction-sound", "judged:equation-bounds-exact",
              "count:flag-true:tautology", "count:flag-true:contradiction", "count:constant-result-with-open-leaves", "count:second-evaluation-on-one-object"]
